@@ -192,7 +192,7 @@ pub struct W1Scenario {
 }
 
 fn is_init_solution_case(case_seed: u64) -> bool {
-    case_seed % 12 == 5
+    case_seed % 6 == 5
 }
 
 pub fn allowed_features() -> gen::problem::Features {
@@ -372,7 +372,7 @@ impl Scenario for W1Scenario {
 
     fn run_case(&self, case_seed: u64, tier: Tier) -> CaseRecord {
         if is_init_solution_case(case_seed) {
-            // one case in twelve: a solve seeded with an initial solution (the document of a first, possibly interrupted,
+            // one case in six: a solve seeded with an initial solution (the document of a first, possibly interrupted,
             // solve read back through read_init_solution), the way `vrp-cli solve --init-solution` does it; the returned
             // document is judged by the same oracles
             let mut rec = crate::scen::restart::RestartScenario.run_case(case_seed, tier);
